@@ -370,7 +370,7 @@ def plan(tier, seed):
     specs = [{"kind": "query", "n": 3000 if q else 40000} for _ in range(9 if q else 30)]
     specs += [{"kind": "pointer", "n": 2500 if q else 30000} for _ in range(3 if q else 8)]
     specs += [{"kind": "patch", "n": 3000 if q else 40000} for _ in range(3 if q else 8)]
-    specs += [{"kind": "directed"}]
+    specs += [{"kind": "directed"}, {"kind": "threads", "rounds": 12 if q else 120}]
     return specs
 
 
@@ -409,9 +409,59 @@ def run(spec, ctx):
     ctx.count("raise_events_seen_inside_jsonpath", sum(__import__("rt.mon", fromlist=["x"]).raises_snapshot().values()))
 
 
+def run_threads(ctx, rounds):
+    """8 threads build pointers, relative pointers, patches and queries from texts full of escapes (known, unknown,
+    octal, truncated) at once, in a process where deprecation warnings raised from the library's modules are errors
+    (yields injected in pointer.py and in the warnings machinery): every call ends in a value or in an error of the
+    family of its boundary, never in a warning-turned-exception or anything else."""
+    import warnings
+
+    import jsonpath
+    from jsonpath import JSONPointer, RelativeJSONPointer
+
+    from rt.threads import stress
+
+    r = ctx.rng
+    texts = ["/caf\\777/x", "/a\\400", "/\\g<0>", "/\\8", "/\\9\\u00e9", "/ok/\\x41", "/\\ud83d\\ude00", "/\\", "/a\\u12", "/plain/~0~1", "/\\N{BULLET}", "/\\e\\777\\u0041"]
+    fam = (jsonpath.JSONPointerError, jsonpath.RelativeJSONPointerError, jsonpath.JSONPatchError)
+    with warnings.catch_warnings():
+        for cat in (DeprecationWarning, PendingDeprecationWarning):
+            warnings.filterwarnings("error", category=cat, module=r"jsonpath(\.|$)")
+        for _round in range(rounds):
+            errors = []
+            calls = [0]
+
+            def worker(wid, rr):
+                for _ in range(40):
+                    t = rr.choice(texts) + rr.choice(["", "/k%d" % rr.randrange(99), "\\777"])
+                    for fn in (lambda: JSONPointer(t), lambda: RelativeJSONPointer("0" + t), lambda: JSONPointer("/z").to("1" + t), lambda: jsonpath.JSONPatch().add(t, 1), lambda: jsonpath.JSONPatch([{"op": "test", "path": t, "value": 1}]),
+                               lambda: JSONPointer(t).resolve({"a": 1}, default=None)):
+                        calls[0] += 1
+                        try:
+                            fn()
+                        except fam:
+                            pass
+                        except BaseException as e:  # noqa: BLE001
+                            errors.append({"text": t, "thread": wid, "error": "%s: %s" % (type(e).__name__, str(e)[:160])})
+                            return
+
+            st = stress(worker, nthreads=8, files=("pointer.py", "warnings.py", "patch.py"), seed=r.random(), prob=0.15)
+            ctx.evaluation(calls[0])
+            ctx.count("concurrent_boundary_calls_with_warnings_as_errors", calls[0])
+            ctx.count("yields_injected", st["yields"])
+            ctx.cell("thread_interleaving_signatures", st["signature"])
+            for e in errors[:2]:
+                ctx.violation("foreign-exception-escaped-under-threads:%s" % e["error"].split(":")[0], {"kind": "threads"}, e)
+            if errors:
+                return
+
+
 def run_workload(spec, ctx):
     r = ctx.rng
     kind = spec["kind"]
+    if kind == "threads":
+        run_threads(ctx, spec["rounds"])
+        return
     if kind == "query":
         seeds = []
         for i in range(spec["n"]):
@@ -556,6 +606,9 @@ def replay(case, ctx):
 
 
 def _replay(case, ctx):
+    if case.get("kind") == "threads":
+        run_threads(ctx, 60)
+        return
     if case.get("warnings_as_errors"):
         import warnings
 
